@@ -125,8 +125,16 @@ def ensure_exe(harness, variant, extra_sources=(), extra_cflags=(), extra_ld=())
         ["-o", exe + ".tmp"] + ldflags + list(extra_ld) + ["-lm"]
     r = sh(cmd)
     if r.returncode != 0:
-        sys.stderr.write(f"build of {harness} ({variant}) failed:\n{r.stdout}\n")
-        raise SystemExit(2)
+        # The harnesses read a few library-internal structs, only to MERGE explored states.  If such a
+        # struct changed so that this no longer compiles, fall back to keys built from the reference
+        # model / the path alone (less merging, same verdicts) instead of failing the check.
+        r2 = sh(cmd[:1] + ["-DMC_NO_INTROSPECTION"] + cmd[1:])
+        if r2.returncode != 0:
+            sys.stderr.write(f"build of {harness} ({variant}) failed:\n{r.stdout}\n")
+            raise SystemExit(2)
+        open(exe + ".nointro", "w").write(r.stdout[-2000:])
+    elif os.path.exists(exe + ".nointro"):
+        os.unlink(exe + ".nointro")
     os.replace(exe + ".tmp", exe)
     _prune(os.path.join(BUILD, "exe"), f"{harness}-{variant}-", 2)
     return exe
